@@ -434,6 +434,8 @@ class Gen:
         r = self.r
         t = self.resolve(t)
         k = t["k"]
+        if depth > 30:
+            raise NoDatum()        # TLC's JSON reader has a nesting limit of 255; deeper data are not worth it either
         if self.fault_countdown is not None:
             if self.fault_countdown == 0:
                 self.fault_countdown = -1
